@@ -304,7 +304,8 @@ fn summarize(r: &RunResult, index: u64, cfg: &PropertyConfig) -> RunSummary {
         steps: r.steps + r.suffix_steps,
         sim_ms: r.sim_ms,
         nontrivial: cfg.triggers.iter().any(|t| r.probes.get(t) > 0) && r.probes.get("launches") > 0,
-        fault_free: r.fault_free,
+        // (the runs of the journal properties all end with an injected restart)
+        fault_free: r.fault_free && cfg.force_journal != Some(true),
         panic: r.aborted_by_panic,
         quiescent: r.quiescent,
         suffix_steps: r.suffix_steps,
@@ -580,6 +581,7 @@ pub fn check_cluster(args: &CheckArgs) -> i32 {
     let mut known_hit: Vec<String> = Vec::new();
     let mut violations: Vec<serde_json::Value> = Vec::new();
     hangs.sort();
+    let mut watchdog_not_reproduced = 0u64;
     let mut hang_sigs: BTreeSet<String> = BTreeSet::new();
     for (index, seed, profile) in &hangs {
         let sig = format!("hang@{profile}");
@@ -619,8 +621,16 @@ pub fn check_cluster(args: &CheckArgs) -> i32 {
             .ok()
             .and_then(|s| s.code());
         if code != Some(1) {
-            eprintln!("HARNESS-ERROR: the hang of run {index} was not reproduced in a fresh process");
-            harness_errors += 1;
+            // The watchdog measures wall clock. A shard that got no processor for that long (an
+            // overloaded machine) looks like a hang; the run then returns at once in a fresh
+            // process. That is not a finding about the code under test.
+            eprintln!(
+                "NOTE: run {index} exceeded the watchdog ({hang_secs} s of wall clock) but returns in a fresh process: overloaded machine, not a finding (the rest of its shard was not run)"
+            );
+            let _ = std::fs::remove_file(&path);
+            hang_sigs.remove(&sig);
+            watchdog_not_reproduced += 1;
+            continue;
         }
         println!("finding {} {}: {}", cfg.id, sig, msg);
         println!("VIOLATION property={} replay={}", cfg.id, path.display());
@@ -686,6 +696,7 @@ pub fn check_cluster(args: &CheckArgs) -> i32 {
             "distinct_abstract_states": states.len(),
             "abstract_state_measure": "hash of (multiset of task runtime states, per-worker assignment shape and blocked-request count, number of redirects, queue lengths of every link capped at 3, worker phase)",
             "schedulers_used": policies,
+            "watchdog_expiries_not_reproduced_in_a_fresh_process": watchdog_not_reproduced,
             "fault_free_runs": runs.iter().filter(|r| r.fault_free).count(),
             "faulty_runs": runs.iter().filter(|r| !r.fault_free).count(),
             "aborted_by_panic": runs.iter().filter(|r| r.panic).count(),
